@@ -110,6 +110,19 @@ def locate(func, loc):
         gs.sort(key=lambda x: (x.lineno, x.col_offset))
         hits = [g for g in gs if loc[1] in ast.unparse(g)]
         return _nth(hits, loc[2] if len(loc) > 2 else 0, f"generator containing `{loc[1]}`").elt, None
+    if kind in ("for_if", "while_if"):
+        cls = ast.For if kind == "for_if" else ast.While
+        loops = [x for x in ast.walk(func) if isinstance(x, cls)]
+        loops.sort(key=lambda x: (x.lineno, x.col_offset))
+        lp = _nth(loops, loc[1], kind)
+        ifs = [x for x in ast.walk(lp) if isinstance(x, ast.If)]
+        ifs.sort(key=lambda x: (x.lineno, x.col_offset))
+        return _nth(ifs, loc[2], f"if #{loc[2]} inside {kind} #{loc[1]}").test, None
+    if kind == "assign_genexp":
+        e, _ = locate(func, ("assign_unique", loc[1]))
+        gs = [x for x in ast.walk(e) if isinstance(x, ast.GeneratorExp)]
+        gs.sort(key=lambda x: (x.lineno, x.col_offset))
+        return _nth(gs, 0, f"generator in assignment to `{loc[1]}`").elt, None
     if kind == "whiletest":
         ws = [x for x in ast.walk(func) if isinstance(x, ast.While)]
         ws.sort(key=lambda x: (x.lineno, x.col_offset))
@@ -297,6 +310,28 @@ class Tr:
                 return f"(List.take {w} {base})"
         raise ExtractError(f"unsupported list expression `{t}`")
 
+    def intexpr(self, e):
+        """Int-valued expression over a non-Int carrier: int(a // b), int literals, int variables, conditionals"""
+        if isinstance(e, ast.Constant) and isinstance(e.value, int):
+            return f"({e.value} : Int)"
+        if isinstance(e, ast.Name):
+            n = self.var(e.id)
+            self.ints.add(n)
+            return n
+        if isinstance(e, ast.IfExp):
+            t = e.test
+            if not (isinstance(t, ast.Compare) and len(t.ops) == 1):
+                raise ExtractError("unsupported test in Int conditional")
+            a, b = self.intexpr(t.left), self.intexpr(t.comparators[0])
+            op = {ast.Gt: ">", ast.GtE: "≥", ast.Lt: "<", ast.LtE: "≤", ast.Eq: "="}.get(type(t.ops[0]))
+            if op is None:
+                raise ExtractError("unsupported comparison in Int conditional")
+            return f"(if {a} {op} {b} then {self.intexpr(e.body)} else {self.intexpr(e.orelse)})"
+        if isinstance(e, ast.Call) and ast.unparse(e.func) == "int" and isinstance(e.args[0], ast.BinOp) and isinstance(e.args[0].op, ast.FloorDiv):
+            self.spec["_floordiv"] = True
+            return f"(Rex.FloorDiv.fdiv {self.num(e.args[0].left)} {self.num(e.args[0].right)})"
+        raise ExtractError(f"unsupported Int expression `{ast.unparse(e)}`")
+
     def _typed_var(self, name):
         if name in self.ints and self.ty != "Int":
             return f"(Int.cast {name} : α)"
@@ -397,7 +432,9 @@ def translate(spec, src_cache):
     if lam_args is not None and "params" not in spec:
         for a in lam_args:
             tr.var(a)
-    if spec.get("result") == "IntOfFloor0":
+    if spec.get("result") == "IntExpr":
+        body = tr.intexpr(expr)
+    elif spec.get("result") == "IntOfFloor0":
         if not (isinstance(expr, ast.BinOp) and isinstance(expr.op, ast.FloorDiv)):
             raise ExtractError(f"expected a // b, got `{ast.unparse(expr)}`")
         body = f"Rex.FloorDiv.fdiv {tr.num(expr.left)} {tr.num(expr.right)}"
@@ -440,9 +477,9 @@ def translate(spec, src_cache):
             ps.append(f"({p} : Int)")
         else:
             ps.append(f"({p} : {tr.ty})")
-    if spec.get("result") in ("IntOfFloor", "IntOfFloor0"):
+    if spec.get("result") in ("IntOfFloor", "IntOfFloor0", "IntExpr"):
         ps.insert(0, "[Rex.FloorDiv α]")
-    rty = "Int" if spec.get("result") in ("IntOfFloor", "IntOfFloor0") else "Bool" if spec.get("result") == "Bool" else (f"List {elem}" if spec.get("result") == "List" else tr.ty)
+    rty = "Int" if spec.get("result") in ("IntOfFloor", "IntOfFloor0", "IntExpr") else "Bool" if spec.get("result") == "Bool" else (f"List {elem}" if spec.get("result") == "List" else tr.ty)
     if spec.get("result") == "List" and elem == "β":
         ps.insert(0, "{β : Type}")
     src_txt = ast.unparse(expr)
